@@ -290,7 +290,7 @@ def witness_rerun_fails(out):
 
 def depload_stage(out, tier):
     """Concurrency of dependency loading (Build.v is sequential): k dependants of one cache-hit dependency race on loading its
-    outputs, also while some of its blobs are lost and it has to be re-made (exactly once).  Deterministic schedules on the real
+    outputs, also while some of its blobs are lost or its target result cannot be read and it has to be re-made (exactly once).  Deterministic schedules on the real
     Executor/Registry (harness/go/depload) against coq/theories/DepLoad.v, see tools/c15_depload.py.  Runs first: its violations
     carry a failing schedule and are listed first."""
     return c15_depload.stage(out, tier)
